@@ -461,6 +461,11 @@ func regressions() []regress {
 			"json", `{}`, "accept"},
 		{"N4DefaultCacheThenString", "N4", gen.S(gen.F("a", gen.Slice(gen.Sc(reflect.String)), "default=[false,true,false,true]")),
 			"json", `{}`, "accept"},
+		// N5: conf's key lower-casing lost the map levels of map-of-map types
+		{"N5ConfMapOfMapOfSliceOfStruct", "", gen.S(gen.F("BQ", gen.Map(gen.Map(gen.Slice(gen.S(gen.F("BQ", gen.Sc(reflect.String)))))))),
+			"conf", `{"BQ": {"k0": {"k0": [{"BQ": "abc"}]}}}`, "accept"},
+		{"N5ConfMapKeyNamedLikeField", "", gen.S(gen.F("BQ", gen.Map(gen.Map(gen.S(gen.F("BQ", gen.Sc(reflect.String))))))),
+			"conf", `{"BQ": {"k0": {"BQ": {"BQ": "abc"}}}}`, "accept"},
 		{"N1NaNPassesRangeForm", "", gen.S(gen.FK("form", "a", F64, "range=[1:5]")),
 			"form", `{"a": "NaN"}`, "reject"},
 		{"N1NaNPassesRangeJsonString", "", gen.S(gen.F("a", F64, "string", "range=[1:5]")),
@@ -478,6 +483,8 @@ func runRegressInto(r regress, ptr any) (error, map[string]map[string]any) {
 	switch r.key {
 	case "json":
 		return mapping.UnmarshalJsonBytes([]byte(r.doc), ptr), map[string]map[string]any{"json": doc}
+	case "conf":
+		return conf.LoadFromJsonBytes([]byte(r.doc), ptr), map[string]map[string]any{"json": doc}
 	default:
 		params, norm := gen.ParamMap(r.key, doc)
 		u := map[string]*mapping.Unmarshaler{"form": formU, "path": pathU, "header": headerU}[r.key]
